@@ -581,6 +581,226 @@ fn gen_malformed(rng: &mut Rng, cases: &mut Vec<Case>, thorough: bool) {
     }
 }
 
+
+/// dimensions the generators above keep at one value or leave to chance (seeded/audit/aud-misc.md): 254/255 methods, greetings
+/// without NO_AUTH, names of 1 / 255 bytes and names that are not text, special IPs, ports 0 / 65535, every RSV class, an IPv6
+/// local address, 16 KiB behind the handshake; CONNECT to bracketed IPv6 literals (zone id, every port edge), port spellings
+/// (leading zeros, 0, 65535, 65536, '+'), upper-case schemes and hosts, https:// with a plain method, userinfo, absolute-URI
+/// with CONNECT, heads without headers, mixed line ends, tabs.  @t / @r where the request is inside / outside the property's
+/// grammar beyond doubt, model comparison (@-) where the property does not say
+fn gen_dimensions(rng: &mut Rng, cases: &mut Vec<Case>, thorough: bool, v6_ok: bool) {
+    let per = if thorough { 6 } else { 3 };
+    let mut add = |rng: &mut Rng, s: Vec<u8>, marks: &[usize], meta: String, local: Vec<u8>| {
+        for h in histories(rng, s.len(), marks, per) {
+            cases.push(Case { stream: s.clone(), arrivals: h, local: local.clone(), meta: meta.clone() });
+        }
+    };
+    let l4 = LOCAL4.to_vec();
+    // ---- SOCKS5 ----
+    let dom = |h: &[u8], port: u16| -> (Vec<u8>, String) {
+        let mut v = vec![3u8, h.len() as u8];
+        v.extend_from_slice(h);
+        v.extend_from_slice(&port.to_be_bytes());
+        (v, format!("D:{}:{}", hex(h), port))
+    };
+    let ip4 = |ip: [u8; 4], port: u16| -> (Vec<u8>, String) { ([&[1u8][..], &ip[..], &port.to_be_bytes()[..]].concat(), format!("4:{}:{}", hex(&ip), port)) };
+    let ip6 = |ip: [u8; 16], port: u16| -> (Vec<u8>, String) { ([&[4u8][..], &ip[..], &port.to_be_bytes()[..]].concat(), format!("6:{}:{}", hex(&ip), port)) };
+    let mut mapped = [0u8; 16];
+    mapped[10] = 0xff;
+    mapped[11] = 0xff;
+    mapped[12..].copy_from_slice(&[10, 1, 2, 3]);
+    let targets: Vec<(Vec<u8>, String)> = vec![
+        dom(b"a", 0),
+        dom(&[b'x'; 255], 65535),
+        dom(&[b'x'; 254], 1),
+        dom("h\u{e9}.\u{4e2d}".as_bytes(), 443),
+        dom(b"a\0b", 80),
+        dom(&[0xff, 0xfe, 0x80], 80),
+        dom(&[b'h', 0xc3], 80),
+        dom(b"[::1]", 80),
+        dom(b"1.2.3.4", 80),
+        dom(b"a b\r\n", 80),
+        ip4([0, 0, 0, 0], 0),
+        ip4([255, 255, 255, 255], 65535),
+        ip4([127, 0, 0, 1], 65535),
+        ip6([0; 16], 0),
+        ip6(mapped, 53),
+        ip6([0xff; 16], 65535),
+    ];
+    let greetings: Vec<Vec<u8>> = vec![
+        [&[5u8, 255][..], &[0u8; 255][..]].concat(),
+        [&[5u8, 255][..], &(0..255).map(|i| [2u8, 1, 255, 0][i % 4]).collect::<Vec<u8>>()[..]].concat(),
+        [&[5u8, 254][..], &[2u8; 253][..], &[0u8][..]].concat(),
+        vec![5, 1, 0],
+        vec![5, 3, 0, 1, 2],
+    ];
+    for (i, (a, astr)) in targets.iter().enumerate() {
+        let g = greetings[i % greetings.len()].clone();
+        let rsv = [0u8, 1, 0x7f, 0x80, 0xff][i % 5];
+        let mut s = g.clone();
+        s.extend_from_slice(&[5, 1, rsv]);
+        s.extend_from_slice(a);
+        let hs = s.len();
+        s.extend_from_slice(&rng.bytes_of(&[0, 1, 33]));
+        let local = if v6_ok && i % 4 == 1 { local6() } else { l4.clone() };
+        add(rng, s, &[g.len(), g.len() + 3, g.len() + 4, g.len() + 5, hs - 2, hs], format!("@t=5,{},{}", astr, hs), local);
+    }
+    // a greeting that offers no NO_AUTH at all (the proxy answers 05 00 all the same: model comparison), an unknown method at
+    // the end of a long list (refused), a count byte that promises more methods than arrive before the end of the stream (refused)
+    for g in [vec![5u8, 1, 2], vec![5, 2, 1, 2], vec![5, 1, 255], [&[5u8, 255][..], &[2u8; 255][..]].concat()] {
+        let mut s = g.clone();
+        s.extend_from_slice(&[5, 1, 0, 1, 10, 0, 0, 1, 0, 80]);
+        s.extend_from_slice(b"early");
+        add(rng, s, &[g.len()], "@-".into(), l4.clone());
+    }
+    {
+        let mut g = [&[5u8, 255][..], &[0u8; 255][..]].concat();
+        g[256] = 0x80;
+        let mut s = g.clone();
+        s.extend_from_slice(&[5, 1, 0, 1, 10, 0, 0, 1, 0, 80]);
+        add(rng, s, &[256, 257], "@r".into(), l4.clone());
+        let short = [&[5u8, 255][..], &[0u8; 200][..]].concat();
+        add(rng, short, &[2], "@r".into(), l4.clone());
+    }
+    // 16 KiB behind the handshake: not a byte of it is consumed
+    {
+        let mut s = vec![5u8, 1, 0, 5, 1, 0, 3, 3, b'a', b'.', b'b', 1, 187];
+        let hs = s.len();
+        s.extend_from_slice(&rng.bytes(16384));
+        add(rng, s, &[3, hs], format!("@t=5,D:612e62:443,{}", hs), l4.clone());
+    }
+    // ---- HTTP CONNECT ----
+    // (authority, expectation): Some((host, port)) = inside the grammar, None+refuse, None+open = the property does not say
+    enum E { T(&'static str, u16), R, M }
+    let connects: Vec<(&str, E)> = vec![
+        ("[::1]:443", E::T("[::1]", 443)),
+        ("[2001:db8::1]:65535", E::T("[2001:db8::1]", 65535)),
+        ("[2001:DB8::1]:1", E::T("[2001:DB8::1]", 1)),
+        ("[fe80::1%25eth0]:443", E::T("[fe80::1%25eth0]", 443)),
+        ("[::ffff:1.2.3.4]:80", E::T("[::ffff:1.2.3.4]", 80)),
+        ("[::1]", E::R),
+        ("[::1]:", E::R),
+        ("EXAMPLE.Com:443", E::T("EXAMPLE.Com", 443)),
+        ("example.com:0443", E::T("example.com", 443)),
+        ("example.com:00000000000000000443", E::T("example.com", 443)),
+        ("example.com:0", E::T("example.com", 0)),
+        ("example.com:65535", E::T("example.com", 65535)),
+        ("example.com:65536", E::R),
+        ("example.com:99999999999999999999", E::R),
+        ("example.com:-1", E::R),
+        ("example.com:4 43", E::M), // the target ends at the space; what follows is a bad version, which is not looked at (as `GET http://a/ XYZ` above)
+        ("example.com:", E::R),
+        ("example.com", E::R),
+        (":443", E::R),
+        ("example.com:+443", E::M),
+        ("user@example.com:443", E::M),
+        ("user:pw@example.com:443", E::M),
+        ("http://example.com:81/", E::M),
+        ("http://example.com/", E::M),
+        ("HTTP://example.com:81", E::M),
+        ("example.com:443/", E::M),
+        ("example.com:443?x", E::M),
+        ("example.com:443#f", E::M),
+        ("::1:443", E::M),
+        ("1.2.3.4:443", E::T("1.2.3.4", 443)),
+        ("a.b.:443", E::T("a.b.", 443)),
+    ];
+    for (i, (auth, e)) in connects.iter().enumerate() {
+        let headers: &[u8] = match i % 3 {
+            0 => b"",
+            1 => b"Host: x\r\n",
+            _ => b"Host: x\r\nProxy-Connection: keep-alive\r\nUser-Agent: a/1 (b; c)\r\n",
+        };
+        let mut s = format!("CONNECT {} HTTP/1.1\r\n", auth).into_bytes();
+        let line_end = s.len();
+        s.extend_from_slice(headers);
+        s.extend_from_slice(b"\r\n");
+        let head = s.len();
+        s.extend_from_slice(&payload(rng));
+        let meta = match e {
+            E::T(h, p) => format!("@t=S,D:{}:{},{}", hex(h.as_bytes()), p, head),
+            E::R => "@r".to_string(),
+            E::M => "@-".to_string(),
+        };
+        add(rng, s, &[8, 8 + auth.len(), line_end, head - 2, head], meta, l4.clone());
+    }
+    {
+        // 16 KiB behind a CONNECT head
+        let mut s = b"CONNECT a.b:443 HTTP/1.1\r\n\r\n".to_vec();
+        let head = s.len();
+        s.extend_from_slice(&rng.bytes(16384));
+        add(rng, s, &[head - 1, head], format!("@t=S,D:612e62:443,{}", head), l4.clone());
+    }
+    // line ends and separators other than the specified ones: model comparison
+    for t in [
+        &b"CONNECT a.b:443 HTTP/1.1\r\nH: v\n\r\nrest"[..],
+        b"CONNECT a.b:443 HTTP/1.1\n\r\nrest",
+        b"CONNECT a.b:443 HTTP/1.1\r\n\nrest",
+        b"CONNECT a.b:443 HTTP/1.1\nH: v\r\n\r\nrest",
+        b"CONNECT a.b:443 HTTP/1.1\r\r\n\r\nrest",
+        b"CONNECT\ta.b:443\tHTTP/1.1\r\n\r\nrest",
+        b"CONNECT a.b:443\r\n\r\nrest",
+        b"CONNECT a.b:443 \r\n\r\nrest",
+        b"CONNECT a.b:443 HTTP/1.1 \r\n\r\nrest",
+        b"CONNECT a.b:443 HTTP/1.1\r\n\r\n\r\n\r\n",
+        b"\nCONNECT a.b:443 HTTP/1.1\r\n\r\nrest",
+        b"\r\n\nCONNECT a.b:443 HTTP/1.1\r\nA: b\r\n\r\nrest",
+    ] {
+        add(rng, t.to_vec(), &[7, 8, 15, t.len() - 4], "@-".into(), l4.clone());
+    }
+    // ---- plain HTTP (absolute form) ----
+    let plains: Vec<(&str, &str, E)> = vec![
+        ("GET", "HTTP://Example.COM/x", E::T("Example.COM", 80)),
+        ("GET", "hTtP://example.com:8080", E::T("example.com", 8080)),
+        ("POST", "https://example.com/x?y", E::T("example.com", 80)),
+        ("GET", "HTTPS://example.com:443/", E::T("example.com", 443)),
+        ("GET", "ht+tp-x.1://example.com/", E::T("example.com", 80)),
+        ("GET", "http://example.com:080/", E::T("example.com", 80)),
+        ("GET", "http://example.com:0000000000000000000080/a:b", E::T("example.com", 80)),
+        ("GET", "http://example.com:0/", E::T("example.com", 0)),
+        ("GET", "http://example.com:65535?q", E::T("example.com", 65535)),
+        ("GET", "http://example.com:65536/", E::R),
+        ("GET", "http://example.com:-1/", E::R),
+        ("GET", "http://example.com:8o/", E::R),
+        ("GET", "http://example.com:+80/", E::M),
+        ("GET", "http://example.com:/", E::M),
+        ("PUT", "http://[fe80::1%25eth0]:8080/p?q=[::]:1", E::T("[fe80::1%25eth0]", 8080)),
+        ("GET", "http://[fe80::1%25eth0]/p:1", E::T("[fe80::1%25eth0]", 80)),
+        ("GET", "http://[::1]:0", E::T("[::1]", 0)),
+        ("GET", "http://[::FFFF:1.2.3.4]:65535/", E::T("[::FFFF:1.2.3.4]", 65535)),
+        ("GET", "http://[::1]:65536/", E::R),
+        ("GET", "http://user@example.com/", E::M),
+        ("GET", "http://user:pw@example.com:81/", E::M),
+        ("GET", "http://user:pw@example.com/", E::M),
+        ("GET", "http://example.com#f", E::M),
+        ("GET", "http://example.com:81#f", E::M),
+        ("GET", "http:example.com/", E::R),
+        ("GET", "http:/example.com/", E::R),
+        ("GET", "//example.com/", E::R),
+        ("GET", "example.com:80", E::R),
+        ("GET", "example.com", E::R),
+        ("CONNECTX", "example.com:80", E::R),
+        ("Connect", "example.com:80", E::R),
+        ("OPTIONS", "http://example.com.:80/", E::T("example.com.", 80)),
+        ("PROPFIND", "http://1.2.3.4:1/", E::T("1.2.3.4", 1)),
+    ];
+    for (m, uri, e) in plains.iter() {
+        let mut s = format!("{} {} HTTP/1.1\r\n", m, uri).into_bytes();
+        let line_end = s.len();
+        s.extend_from_slice(b"Host: whatever\r\n\r\n");
+        if rng.chance(1, 2) {
+            s.extend_from_slice(b"body");
+        }
+        let meta = match e {
+            E::T(h, p) => format!("@t=H,D:{}:{},0", hex(h.as_bytes()), p),
+            E::R => "@r".to_string(),
+            E::M => "@-".to_string(),
+        };
+        let sp2 = m.len() + 1 + uri.len();
+        add(rng, s, &[m.len(), m.len() + 8, sp2, sp2 + 1, line_end], meta, l4.clone());
+    }
+}
+
 pub fn generate(w: &mut dyn Write, seed: u64, thorough: bool) {
     let mut rng = Rng::new(seed ^ 0x6873_6861_6b65);
     let v6_ok = std::net::TcpListener::bind("[::1]:0").is_ok();
@@ -598,6 +818,7 @@ pub fn generate(w: &mut dyn Write, seed: u64, thorough: bool) {
     }
     gen_socks5_bad(&mut rng, &mut cases, thorough);
     gen_malformed(&mut rng, &mut cases, thorough);
+    gen_dimensions(&mut Rng::new(seed ^ 0x6873_6175_6431), &mut cases, thorough, v6_ok);
     // run the cases on a few OS threads (each with its own paused-clock runtime), print them in order
     let n = cases.len();
     let threads = std::thread::available_parallelism().map(|x| x.get()).unwrap_or(4).clamp(1, 8);
